@@ -456,7 +456,7 @@ func main() {
 		},
 		Deadline: func(tier string) time.Duration {
 			if tier == "thorough" {
-				return 60 * time.Minute
+				return 25 * time.Minute
 			}
 			return 8 * time.Minute
 		},
